@@ -5,8 +5,9 @@
    [refs_in_range] is the part of tsk_table_collection_check_integrity(…,0) the functions
    rely on (every id column points inside its table or is NULL). *)
 From Coq Require Import List ZArith.
+From Coq Require Import Permutation.
 From TskVerif Require Import Base.Common C14.Model C14.Spec C14.Basics C14.SubsetMain
-     C14.SubsetCorollaries C14.SubsetIdentity C14.Examples.
+     C14.SubsetCorollaries C14.SubsetIdentity C14.UnionProofs C14.Examples.
 Import ListNotations.
 Open Scope Z_scope.
 
@@ -87,3 +88,35 @@ Theorem subset_identity : forall t,
   refs_in_range t = true ->
   subset t (zrange (length (t_nodes t))) true true = Ok t.
 Proof. exact subset_identity_lemma. Qed.
+
+(* (f) union adds exactly the nodes of `other` mapped to NULL (in order, row data kept) and
+   exactly the edges of `other` that involve one of them (ends renumbered through
+   [union_node_id]); the rows of `self` stay.  Edges up to the order of the final sort. *)
+Theorem union_adds_exactly : forall self other mapping check_shared add_populations u,
+  refs_in_range other = true ->
+  union self other mapping check_shared add_populations = Ok u ->
+  zlen mapping = zlen (t_nodes other) /\ bad_map self mapping = false /\
+  union_adds self other mapping add_populations u /\
+  Permutation (t_edges u)
+              (t_edges self ++ map (union_edge self mapping) (filter (edge_is_new mapping) (t_edges other))).
+Proof. exact union_adds_exactly_lemma. Qed.
+
+(* refusal under check_shared_equality: unequal canonicalised shared portions are refused … *)
+Theorem union_refuses_differing_shared : forall self other mapping add_populations s1 o1 s2 o2,
+  zlen mapping = zlen (t_nodes other) -> bad_map self mapping = false ->
+  subset self (fst (shared_lists 0 mapping)) false false = Ok s1 ->
+  subset other (snd (shared_lists 0 mapping)) false false = Ok o1 ->
+  canonicalise s1 false = Ok s2 -> canonicalise o1 false = Ok o2 ->
+  tables_eqb s2 o2 = false ->
+  union self other mapping true add_populations = Err ERR_UNION_DIFF_HISTORIES.
+Proof. exact union_refuses_lemma. Qed.
+
+(* … and a checked union that succeeds had equal shared portions *)
+Theorem union_checked_shared_equal : forall self other mapping add_populations u,
+  union self other mapping true add_populations = Ok u ->
+  exists s1 o1 s2 o2,
+    subset self (fst (shared_lists 0 mapping)) false false = Ok s1 /\
+    subset other (snd (shared_lists 0 mapping)) false false = Ok o1 /\
+    canonicalise s1 false = Ok s2 /\ canonicalise o1 false = Ok o2 /\
+    tables_eqb s2 o2 = true.
+Proof. exact union_checked_equal_lemma. Qed.
